@@ -21,6 +21,8 @@ import Driver.GenStatus
 import Driver.Lifecycle
 import Driver.Collection
 import Driver.Roots
+import Driver.SMTImpl
+import Driver.CodecNFC
 
 def main (args : List String) : IO UInt32 := do
   match args with
@@ -48,6 +50,8 @@ def main (args : List String) : IO UInt32 := do
   | ["C18LIFE"] => Driver.Lifecycle.main; return 0
   | ["LIBCOLL"] => Driver.Collection.main; return 0
   | ["ROOTS"] => Driver.Roots.main; return 0
+  | ["C10IMPL"] => Driver.SMTImpl.main; return 0
+  | ["C08NFC"] => Driver.CodecNFC.main; return 0
   | ["C17"] => Driver.ReqResp.main; return 0
   | ["C01"] => Driver.BFT.main; return 0
   | _ => IO.eprintln "usage: ldriver <property-id>"; return 2
